@@ -365,7 +365,9 @@ namespace GeographicLib {
                             eps, domg12, numit < maxit1_, dv, Ca);
           if (tripb ||
               // Reversed test to allow escape with NaNs
-              !(fabs(v) >= (tripn ? 8 : 1) * tol0_) ||
+              // (an exactly equatorial start, alp1 = 90d, can't be improved)
+              !(fabs(v) >= ((tripn || (sbet1 == 0 && calp1 == 0)) ? 8 : 1)
+                * tol0_) ||
               // Enough bisections to get accurate result
               numit == maxit2_)
             break;
